@@ -2,6 +2,6 @@
 
 package ristretto
 
-import "sync"
+import "reflect"
 
-func verifPoolItems(p *sync.Pool) []any { return nil }
+func verifPoolItemsOf(v reflect.Value) []any { return nil }
